@@ -123,7 +123,7 @@ func TestVerif_C32_Reap(t *testing.T) {
 		var victim *member
 		if c.Pre == "victim-role-change" {
 			// pick a member of the opposite role and let it re-join with the role under test
-			victim = e.pickMember(c.Pick, func(m *member) bool { return m.alive && m.node != l && m.voter != c.VictimVoter })
+			victim = e.pickMember(c.Pick, func(m *member) bool { return m.alive && m.node != l && m.voter != c.VictimVoter && m.sure() })
 			if victim != nil && (!victim.voter || e.canStopVoter()) {
 				if err := e.join(victim.node, victim.id, victim.addr, c.VictimVoter); err != nil {
 					rec.Label("inconclusive:role-change-failed")
@@ -147,7 +147,7 @@ func TestVerif_C32_Reap(t *testing.T) {
 			}
 		}
 		if victim == nil {
-			victim = e.pickMember(c.Pick, func(m *member) bool { return m.alive && m.node != l && m.voter == c.VictimVoter })
+			victim = e.pickMember(c.Pick, func(m *member) bool { return m.alive && m.node != l && m.voter == c.VictimVoter && m.sure() })
 		}
 		if victim == nil || (victim.voter && !e.canStopVoter()) {
 			rec.Label("inconclusive:no-victim")
